@@ -7,7 +7,7 @@ REPO_SRC = os.environ.get('VX_REPO_SRC', '/repo/src')
 
 class Src:
     """include /repo/src/<name>: every top-level item except `use`, test modules and the ones dropped here"""
-    def __init__(self, name, fns=(), drop=(), drop_fns=(), item_attr=None, keep_fns=None, header='', footer='', props=(), regex_rules=(), keep_items=None, dyn_calls=False):
+    def __init__(self, name, fns=(), drop=(), drop_fns=(), item_attr=None, keep_fns=None, header='', footer='', props=(), regex_rules=(), keep_items=None, dyn_calls=False, loader=None, pre=None):
         self.name = name
         self.fns = {s.key: s for s in fns}
         self.drop = set(drop)              # item names ('<X as fmt::Display>', 'create_context', ...)
@@ -17,6 +17,8 @@ class Src:
         self.header, self.footer = header, footer
         self.props = list(props)           # default properties of un-annotated functions of this file
         self.regex_rules = list(regex_rules)
+        self.loader = loader               # callable(repo_src) -> File (virtual source, e.g. lifted handlers)
+        self.pre = pre                     # callable(text, counters) -> text applied before lexing (macro expansion, rule 11)
         self.dyn_calls = dyn_calls         # rule 7: rewrite applications of handler values to vx_apply(h, (args,))
         self.keep_items = keep_items       # predicate(kind, name) on top-level items (None = keep all)   # (rule_name, pattern, replacement) textual normalisations with counters
 
@@ -67,7 +69,8 @@ def generate(unit, repo_src=None):
     repo_src = repo_src or REPO_SRC
     g = Generated()
     c = g.counters
-    for part in unit.parts:
+    parts = unit.parts(repo_src, g) if callable(unit.parts) else unit.parts
+    for part in parts:
         if isinstance(part, Ghost):
             _emit_text(g, part.text, part.props, part.name)
             continue
@@ -75,7 +78,12 @@ def generate(unit, repo_src=None):
             _emit_text(g, part, [], '')
             continue
         sf = part
-        f = File(os.path.join(repo_src, sf.name))
+        if sf.loader is not None:
+            f = sf.loader if not callable(sf.loader) else sf.loader(repo_src, g)
+        elif sf.pre is not None:
+            f = File(os.path.join(repo_src, sf.name), src=sf.pre(open(os.path.join(repo_src, sf.name)).read(), c))
+        else:
+            f = File(os.path.join(repo_src, sf.name))
         ed = Edits(f.src)
         t = f.toks
         keep_ranges = []
@@ -144,7 +152,7 @@ def generate(unit, repo_src=None):
             out = []; oorg = []; pos = 0; n = 0
             for m in re.finditer(pat, text):
                 out.append(text[pos:m.start()]); oorg.extend(org[pos:m.start()])
-                r = m.expand(rep)
+                r = rep(m) if callable(rep) else m.expand(rep)
                 out.append(r); oorg.extend([org[m.start()]] + [-1] * (len(r) - 1) if r else [])
                 pos = m.end(); n += 1
             out.append(text[pos:]); oorg.extend(org[pos:])
@@ -174,7 +182,7 @@ def generate(unit, repo_src=None):
                     for o2 in offs:
                         own = owner_of(o2)
                         if own: break
-                g.origin.append((sf.name, f.line_of(o)))
+                g.origin.append((getattr(f, 'real_name', sf.name), f.real_line(f.line_of(o)) if hasattr(f, 'real_line') else f.line_of(o)))
                 cur_owner = own
                 g.owner.append(own)
             else:
